@@ -754,11 +754,10 @@ def m_from_primitive(ex, st, callee, args, dty, m):
     if not vs or ty in ("Option", "Result"):
         return NotImplemented
     x = args[0]
-    outs = []
-    for name, d in vs:
-        outs.append((x.bv == bv(d, x.width), mk_some(dty, EnumV(ty, name, None, {name: Agg("variant", name, [])}))))
-    outs.append((z3.And(*[x.bv != bv(d, x.width) for _, d in vs]), mk_none(dty)))
-    return ("__fork__", outs)
+    valid = z3.Or(*[x.bv == bv(d, x.width) for _, d in vs])
+    # one symbolic enum value (discriminant = the integer) instead of one path per variant
+    ev = EnumV(ty, None, I(z3.ZeroExt(64 - x.width, x.bv) if x.width < 64 else x.bv, True))
+    return ("__fork__", [(valid, mk_some(dty, ev)), (z3.Not(valid), mk_none(dty))])
 
 
 @model(r"Vec::<u8>::extend::<.*>$|Vec::<u8>::extend_from_slice$|<Vec<u8> as Extend<&u8>>::extend::<.*>$|<Vec<u8> as Extend<u8>>::extend::<.*>$")
